@@ -661,6 +661,11 @@ class Interp:
         return self.decide(f"{tagof(l)} {type(op).__name__} {tagof(r)}")
 
     def equal(self, l, r) -> bool:
+        # a member of an enum with a data mix-in (`class K(str, Enum)`, IntEnum, StrEnum) *is* its value for ==, `in` and hashing
+        if isinstance(l, EnumV) and getattr(l, "mixin", False) and not isinstance(r, EnumV):
+            l = l.value_
+        if isinstance(r, EnumV) and getattr(r, "mixin", False) and not isinstance(l, EnumV):
+            r = r.value_
         if isinstance(l, Const) and isinstance(r, Const):
             return l.v == r.v
         if isinstance(l, EnumV) and isinstance(r, EnumV):
@@ -1415,7 +1420,10 @@ class Interp:
                 names = {n_.id if isinstance(n_, ast.Name) else n_.attr for n_ in ast.walk(val) if isinstance(n_, (ast.Name, ast.Attribute))}
                 return FlagV(cls, names & set(universe), universe)
             return FlagV(cls, (name,), universe)
-        return EnumV(f"{cls}.{name}", self.ev(dict(members)[name], self.modenv(mod)))
+        ev_ = EnumV(f"{cls}.{name}", self.ev(dict(members)[name], self.modenv(mod)))
+        if kinds & {"IntEnum", "StrEnum", "str", "int"} and isinstance(ev_.value_, Const):
+            ev_.mixin = True
+        return ev_
 
     def _enum_members(self, mod: str, cls: str):
         cdef = self.prog.modules[mod].classes.get(cls) if mod in self.prog.modules else None
@@ -1609,8 +1617,26 @@ class Interp:
             return Sym(f"{b}({tagof(a0)})", origin=("call", b, args, kwargs), typ="bool")
         if b == "print":
             return Const(None)
-        if b == "map" and len(args) == 2 and isinstance(args[1], (Lst, Tup)) and not getattr(args[1], "open", False):
-            return Lst([self.call(args[0], [x], {}, site, env) for x in args[1].items])
+        if b == "map" and len(args) == 2 and (items_ := self.iter_values(self.force(args[1]), site)) is not None:
+            return Lst([self.call(args[0], [x], {}, site, env) for x in items_])
+        if b == "filter" and len(args) == 2 and (items_ := self.iter_values(self.force(args[1]), site)) is not None:
+            keep = args[0]
+            if isinstance(keep, Const) and keep.v is None:
+                return Lst([x for x in items_ if self.truth(x)])
+            return Lst([x for x in items_ if self.truth(self.call(keep, [x], {}, site, env))])
+        if d == "itertools.starmap" and len(args) == 2 and (items_ := self.iter_values(self.force(args[1]), site)) is not None \
+                and all(isinstance(x, (Tup, Lst)) for x in items_):
+            return Lst([self.call(args[0], list(x.items), {}, site, env) for x in items_])
+        if d in ("operator.attrgetter", "operator.itemgetter") and len(args) == 1 and isinstance(a0, Const):
+            return Ext(f"{d}:{a0.v!r}")  # a callable that reads that attribute / item of its argument
+        if d.startswith("operator.attrgetter:") and len(args) == 1:
+            return self.getattr(a0, ast.literal_eval(d.split(":", 1)[1]), site)
+        if d.startswith("operator.itemgetter:") and len(args) == 1:
+            k_ = ast.literal_eval(d.split(":", 1)[1])
+            if isinstance(a0, (Tup, Lst)) and isinstance(k_, int) and -len(a0.items) <= k_ < len(a0.items):
+                return a0.items[k_]
+            if isinstance(a0, Dct) and k_ in a0.items:
+                return a0.items[k_]
         if b == "getattr" and len(args) == 2 and not kwargs and isinstance(args[1], Const) and isinstance(args[1].v, str) \
                 and isinstance(a0, (Obj, NodeV)):
             return self.getattr(a0, args[1].v, site)  # getattr(x, "name") is x.name
@@ -1672,7 +1698,14 @@ class Interp:
             if isinstance(a0, Str) and all(isinstance(p_, str) for p_ in a0.parts):
                 a0 = Const("".join(a0.parts))  # a template text assembled from constant pieces
             return Tpl(a0)
-        if d == "pathlib.Path":
+        if d in ("os.fspath", "os.fsdecode") and a0 is not None and ((isinstance(a0, Sym) and a0.typ in ("path", "str")) or isinstance(a0, (Str, Const))):
+            return a0  # the text of a path object
+        if d in ("os.path.join", "posixpath.join") and args and all(isinstance(x, (Str, Const)) or (isinstance(x, Sym) and x.typ in ("path", "str")) for x in args):
+            out = args[0]
+            for a_ in args[1:]:
+                out = Str([out, "/", self.to_strpart(a_)])
+            return out
+        if d in ("pathlib.Path", "pathlib.PurePath", "pathlib.PosixPath", "pathlib.PurePosixPath"):
             if isinstance(a0, Sym):
                 return Sym(f"Path({a0.tag})", truthy=True, origin=("path", a0), typ="path")
             return Sym(f"Path({tagof(a0)})", truthy=True, typ="path")
@@ -1835,6 +1868,11 @@ class Interp:
     # ------------------------------------------------------------------ methods of abstract values
     def call_method(self, recv, name: str, args, kwargs, site, env) -> Val:
         a0 = args[0] if args else None
+        if name == "joinpath" and args and ((isinstance(recv, Sym) and recv.typ == "path") or isinstance(recv, Str)):
+            out = recv
+            for a_ in args:  # PurePath.joinpath(a, b) == path / a / b
+                out = Str([out, "/", self.to_strpart(a_)])
+            return out
         if isinstance(recv, Obj):
             if recv.kind == "duck":
                 return self.hooks.engine(self, recv, name, args, kwargs, site)
